@@ -464,3 +464,48 @@ Definition ostall_scenario (early : bool) (limit held0 : N) : res (N * N) :=
   | Err e => Err e
   | Panic => Panic
   end.
+
+(* ------------------------------------------------------------------ stale handles: any sequence of Get / Release on ANY permit *)
+
+(* The controller hands out permit objects; the protocol code keeps a handle and may call Release on it again later
+   (handleOffer does: "release permit fast" and then the deferred call).  A handle that has been released stays released
+   for ever: a second Release through it is a no-op, whatever permits have been handed out in between. *)
+Inductive pop : Type :=
+| PopGet                 (* Get..Permit: appends the permit it returns (NoPermit on failure) to the list of handles *)
+| PopRelease (i : nat).  (* Release through the i-th handle ever handed out (no such handle: nothing happens) *)
+
+Definition pop_step (limit : N) (st : N * list permit) (o : pop) : res (N * list permit * bool) :=
+  let (sem, hs) := st in
+  match o with
+  | PopGet => let '(p, ok, c) := get_permit limit sem in Ok (c, hs ++ [p], ok)
+  | PopRelease i =>
+      match nth_error hs i with
+      | None => Ok (sem, hs, true)
+      | Some p =>
+          match permit_release p sem with
+          | (p', Ok c) => Ok (c, upd hs i p', true)
+          | (_, Err e) => Err e
+          | (_, Panic) => Panic
+          end
+      end
+  end.
+
+(* per step: (Get succeeded / n.a., slots in use after the step) *)
+Fixpoint pops_run (limit : N) (ops : list pop) (st : N * list permit) : res (list (bool * N)) :=
+  match ops with
+  | [] => Ok []
+  | o :: r =>
+      match pop_step limit st o with
+      | Ok (c, hs, ok) =>
+          match pops_run limit r (c, hs) with
+          | Ok l => Ok ((ok, c) :: l)
+          | Err e => Err e
+          | Panic => Panic
+          end
+      | Err e => Err e
+      | Panic => Panic
+      end
+  end.
+
+Definition handle_live (p : permit) : bool := match p with ReleasePermit false => true | _ => false end.
+Definition n_live (hs : list permit) : nat := length (filter handle_live hs).
